@@ -764,21 +764,44 @@ fn line_sweep(s: &mut Summary, thorough: bool) {
     let exhaustive = upatterns.len();
     upatterns.extend(vec![vec![0xD800], vec![0xDC00], vec![0xDC00, 0xD800], vec![0xD83D, 0xDE00], vec![0xD83D], vec![0xD83D, 0x41], vec![0xDE00, 0xDE00],
                                         vec![0xFEFF], vec![0xFFFE], vec![0x2028], vec![0x85], vec![0x0B], vec![0x0D], vec![0x0D, 0x41], vec![0x0A0D], vec![0x0D0A], vec![0x0A00]]);
+    let pair_idx = upatterns.iter().position(|p| p == &vec![0xD83Du16, 0xDE00]).unwrap_or(0);
+    // characters whose LAST byte in one of the byte orders is a blank (0x20 / 0x09): the end of an unterminated last line
+    let tails: Vec<Vec<u16>> = vec![vec![0x2026], vec![0x0915], vec![0x4E09], vec![0x2020], vec![0x0920, 0x2009, 0x41, 0x2026], vec![0x0909]];
+    let n_up = upatterns.len();
+    upatterns.extend(tails);
     for (pi, pat) in upatterns.iter().enumerate() {
         // (the exhaustive surrogate sequences at three prefix lengths only)
-        let plens: Vec<usize> = if pi < exhaustive { vec![0, 1, 33] } else { (0..=(if thorough { 140 } else { 70 })).collect() };
+        let mut plens: Vec<usize> = if pi < exhaustive { vec![0, 1, 33] } else if pi >= n_up { vec![0, 1, 2, 7] } else { (0..=(if thorough { 140 } else { 70 })).collect() };
+        if pi == pair_idx {
+            // a surrogate pair around every multiple of 256 units up to 2048 (internal chunk sizes)
+            for m in 1..=8usize {
+                // the line is `Title:a` (7 units) + prefix + pair: the high surrogate sits at unit 256 m - 5 .. 256 m + 9
+                for d in 0..15usize {
+                    plens.push(256 * m + d - 12);
+                }
+            }
+        }
         for plen in plens {
             for le in [true, false] {
-                for crlf in [false, true] {
+                for variant in 0..3 {
+                    let crlf = variant == 1;
+                    let last_line = variant == 2;       // no line end at all, nothing after it
+                    if last_line && pi < n_up && pi != pair_idx {
+                        continue;
+                    }
                     let mut payload: Vec<u16> = std::iter::repeat(b'q' as u16).take(plen).collect();
                     payload.extend_from_slice(pat);
-                    payload.push(b'b' as u16);
-                    let mut units: Vec<u16> = "[Metadata]\nTitle:a".encode_utf16().collect();
+                    if pi < n_up {
+                        payload.push(b'b' as u16);
+                    }
+                    let mut units: Vec<u16> = "[Metadata]\nArtist:z\nTitle:a".encode_utf16().collect();
                     units.extend_from_slice(&payload);
                     let nl: &[u16] = if crlf { &[0x0D, 0x0A] } else { &[0x0A] };
-                    units.extend_from_slice(nl);
-                    units.extend("Artist:z".encode_utf16());
-                    units.extend_from_slice(nl);
+                    if !last_line {
+                        units.extend_from_slice(nl);
+                        units.extend("Creator:c".encode_utf16());
+                        units.extend_from_slice(nl);
+                    }
                     let mut file: Vec<u8> = if le { vec![0xFF, 0xFE] } else { vec![0xFE, 0xFF] };
                     for u in &units {
                         file.extend_from_slice(&if le { u.to_le_bytes() } else { u.to_be_bytes() });
@@ -789,9 +812,9 @@ fn line_sweep(s: &mut Summary, thorough: bool) {
                     s.checks += 1;
                     match r {
                         Err(p) => s.mismatch("panic", json!({"what": "line sweep utf16", "panic": p})),
-                        Ok(Ok(m)) if m.title == want && m.artist == "z" => {}
-                        Ok(other) => s.mismatch("lossy-utf16-differs-from-std", json!({"prefix_len": plen, "pattern": format!("{pat:04X?}"), "le": le, "crlf": crlf,
-                            "got": other.map(|m| (m.title.escape_unicode().to_string(), m.artist)).map_err(|e| e.to_string()).ok(), "want": want.escape_unicode().to_string()})),
+                        Ok(Ok(m)) if m.title == want && m.artist == "z" && (last_line || m.creator == "c") => {}
+                        Ok(other) => s.mismatch("lossy-utf16-differs-from-std", json!({"prefix_len": plen, "pattern": format!("{pat:04X?}"), "le": le, "variant": variant,
+                            "got": other.map(|m| (m.title.escape_unicode().to_string(), m.artist, m.creator)).map_err(|e| e.to_string()).ok(), "want": want.escape_unicode().to_string()})),
                     }
                 }
             }
